@@ -110,6 +110,23 @@ func genOriginLike(r *gen.Rand, c cfgIn, host string, https bool, referer bool) 
 
 type client struct{ ck, sc string }
 
+// mangle returns a token that differs slightly from t: a proper prefix, an extension, another case.
+func mangle(r *gen.Rand, t string) string {
+	if t == "" {
+		return "t"
+	}
+	switch r.Intn(4) {
+	case 0:
+		return t[:len(t)-1]
+	case 1:
+		return t + gen.Pick(r, []string{"0", "x", "-"})
+	case 2:
+		return strings.ToUpper(t)
+	default:
+		return t[:1]
+	}
+}
+
 // genCase generates a history adaptively (choices look at what the server answered so far) but
 // records only concrete values, so the case replays and shrinks as plain data.
 func genCase(r *gen.Rand, wr *gen.Writer) (cfgIn, []op, string) {
@@ -161,6 +178,8 @@ func genCase(r *gen.Rand, wr *gen.Writer) (cfgIn, []op, string) {
 			o.ck = cls[r.Intn(ncl)].ck
 		case 2:
 			o.ck = gen.Pick(r, seen)
+		case 3:
+			o.ck = mangle(r, cl.ck) // near miss of the client's own token (cookie and presented value agree)
 		default:
 			o.ck = cl.ck
 		}
@@ -228,7 +247,8 @@ func genCase(r *gen.Rand, wr *gen.Writer) (cfgIn, []op, string) {
 		default:
 			o.origin = genOriginLike(r, c, o.host, o.https, false)
 		}
-		if !unsafe && r.Chance(1, 6) {
+		// the protected handler calls DeleteToken: on safe requests, and "logout" style on unsafe ones
+		if (!unsafe && r.Chance(1, 6)) || (unsafe && r.Chance(1, 9)) {
 			o.del = true
 		}
 		if faultsOK && r.Chance(1, 7) {
@@ -240,7 +260,7 @@ func genCase(r *gen.Rand, wr *gen.Writer) (cfgIn, []op, string) {
 		obs = append(obs, res)
 		// update the jar from the answer
 		f := strings.Split(res, ",")
-		if len(f) == 8 {
+		if len(f) == 9 {
 			if f[0] == "1" {
 				if unsafe {
 					wr.Count("unsafe-pass")
